@@ -1,4 +1,1 @@
 package checks
-
-func c17Worker(tier, journal string) int { return 2 }
-func c17One(args []string) int           { return 2 }
